@@ -44,12 +44,21 @@ def scenario(name):
         return base.blocks, {}, [('rchain', y.blocks), ('poll',)], [base.blocks, y.blocks]
     if name == 'forced-reorg':
         return base.blocks, {}, [('force', 2), ('poll',)], [base.blocks]
+    if name == 'sync-fork':
+        # initial sync of a 10-block chain A in small batches; in the middle of it the daemon
+        # switches to a longer chain B forking at height 6 (unflushed blocks behind the reorg)
+        long_ = BASE + ['new', 'old', 'self', 'new']
+        a = reorgrun.sim_for(long_)
+        y = reorgrun.make_branch(long_, 4, ['replay', 'new', 'new', 'new', 'old', 'cb'], b'Y', a)
+        return None, {}, [('chain', a.blocks), ('start',), ('chain_at', 100, y.blocks)], \
+            [a.blocks, y.blocks]
     if name == 'idle':
         return base.blocks, {}, [('poll',), ('poll',)], [base.blocks]
     raise common.Broken(name)
 
 
-SHAPES = ['initial-sync', 'new-blocks', 'two-at-once', 'natural-reorg', 'forced-reorg', 'idle']
+SHAPES = ['initial-sync', 'new-blocks', 'two-at-once', 'natural-reorg', 'forced-reorg', 'idle',
+          'sync-fork']
 
 
 def job_name(job):
@@ -73,6 +82,7 @@ class Exec:
             w.start_sync()
             w.run_until_caught_up()
             self.started = True
+        self.w0_height = w.db.state.height if self.started else -1
         for ch in self.chains:
             w.daemon.add_known(ch)
         self.runner = SlicedRunner(w)
@@ -80,11 +90,15 @@ class Exec:
         self.completed = []         # (height) of advance jobs completed, in order
         self.overlap = False
         self.steps = 0
+        self.steps_taken = 0
+        self.levels = []            # index height after each completed advance / backup job
         w.on_job_end = self._job_end
         self.cancelled_at = None
         self.done_before_cancel = None
 
     def _job_end(self, job):
+        if job_name(job) in ('advance_block', 'backup_block') and job.result[1] is None:
+            self.levels.append((job_name(job), self.w.bp.state.height))
         if job_name(job) == 'advance_block' and job.result[1] is None:
             # advance_block returns without advancing when it detects a reorg
             self.completed.append(job.args[0].height if self.w.bp.state.height >= job.args[0].height
@@ -102,6 +116,11 @@ class Exec:
         w, loop = self.w, self.w.loop
         if w.bp_task is not None and w.bp_task.done():
             return None
+        for ev in [e for e in self.events if e[0] == 'chain_at' and e[1] <= self.steps_taken]:
+            self.events.remove(ev)
+            w.daemon.add_known(ev[2])
+            w.daemon.set_chain(ev[2])
+        self.steps_taken += 1
         if loop.step_ready():
             return 'L'
         active = self.runner.active()
@@ -110,8 +129,10 @@ class Exec:
         if active:
             self.runner.step(active[0])
             return 'J'
-        if self.events:
-            ev = self.events.pop(0)
+        pending = [e for e in self.events if e[0] != 'chain_at']
+        if pending:
+            ev = pending[0]
+            self.events.remove(ev)
             if ev[0] in ('chain', 'rchain'):
                 w.daemon.set_chain(ev[1])
                 if ev[0] == 'rchain':
@@ -142,6 +163,7 @@ class Exec:
         # the stop: what ServerBase.run / the task group do
         self.done_before_cancel = [h for h in self.completed if h is not None]
         self.reorg_before_cancel = self.reorg_requested or w.bp.reorg_count is not None
+        self.levels_at_cancel = len(self.levels)
         w.shutdown_event.set()
         w.bp_task.cancel()
         menus, taken = [], []
@@ -222,9 +244,14 @@ def judge(ex, res):
                         if isinstance(detail, dict) else {}))))
             except (world.ReaderBlocked, observe.ReadFailed, RuntimeError) as e:
                 failures.append(('reopened:reader-retries-forever', dict(height=h, error=repr(e))))
-        need = max(ex.done_before_cancel or [-1])
-        if not ex.reorg_before_cancel and h < need:
-            failures.append(('finished-work-lost', dict(stored=h, completed=need)))
+        # the index height reached by the jobs completed before the stop, minus one per block
+        # legitimately undone by a backup that completed afterwards (the shielded one in flight)
+        before = ex.levels[:ex.levels_at_cancel]
+        need = before[-1][1] if before else (ex.w0_height if hasattr(ex, 'w0_height') else -1)
+        need -= sum(1 for kind, _h in ex.levels[ex.levels_at_cancel:] if kind == 'backup_block')
+        if h < need:
+            failures.append(('finished-work-lost', dict(stored=h, completed=need,
+                                                        reorg_requested=ex.reorg_before_cancel)))
         res.distinct('stored_heights', (ex.shape, h))
     finally:
         w2.close(destroy=False)
